@@ -7,7 +7,9 @@ package checks
 // after the release every hook execution's binding contexts are compared with a
 // reference simulation (combine + compact, from the statement). In half of the
 // cases the first combining handler is additionally parked between its Iterate
-// and its Filter while more tasks are appended: they must survive.
+// and its Filter while more tasks are appended: they must survive. In a quarter
+// of the cases hook A's first execution fails: the retry must get the same
+// (combined) contexts - the merged tasks are gone from the queue by then.
 
 import (
 	"fmt"
@@ -16,6 +18,7 @@ import (
 	"testing/synctest"
 	"time"
 
+	"verif/harness/vhk"
 	"verif/harness/vlib"
 )
 
@@ -83,6 +86,11 @@ func TestC07Sys(t *testing.T) {
 			layout = append(layout, ltask{B: b})
 		}
 		concurrent := c.Index%2 == 1
+		// every fourth case: hook A's first execution fails; the retry must receive the same (combined) contexts
+		failA := c.Index%4 == 2
+		if failA {
+			hs.Plan("A", 0, vhk.Directive{Exit: 1})
+		}
 		var late []ltask
 		if concurrent {
 			for i := 0; i < 1+rng.IntN(3); i++ {
@@ -202,6 +210,14 @@ func TestC07Sys(t *testing.T) {
 			}
 			want = append(want, head.Hook+":"+strings.Join(kept, ","))
 		}
+		if failA {
+			for i, w := range want {
+				if strings.HasPrefix(w, "A:") {
+					want = append(want[:i+1], append([]string{w}, want[i+1:]...)...)
+					break
+				}
+			}
+		}
 		var got []string
 		for _, ex := range hs.Executions() {
 			if ex.Hook == "S-sentinel" {
@@ -222,6 +238,9 @@ func TestC07Sys(t *testing.T) {
 			cls := "sequential"
 			if armedCombine {
 				cls = "concurrent-append"
+			}
+			if failA {
+				cls = "failed-run-retried"
 			}
 			// classify: lost context vs other
 			gotAll, wantAll := strings.Join(got, ","), strings.Join(want, ",")
@@ -244,7 +263,7 @@ func TestC07Sys(t *testing.T) {
 		}
 		res.Count("executions_compared", int64(len(want)))
 		if merges > 0 || len(want) > 1 {
-			res.Key = fmt.Sprintf("t%d-m%d-late%d-%v", len(layout), merges, len(late), armedCombine)
+			res.Key = fmt.Sprintf("t%d-m%d-late%d-%v-retry%v", len(layout), merges, len(late), armedCombine, failA)
 		}
 		if c.Index < 3 {
 			res.Sample = m{"case": desc}
